@@ -138,6 +138,39 @@ theorem run_append {k : LockKind} {mode : ι → LockMode} : ∀ (pre post : Lis
       simp only [hs] at h ⊢
       exact run_append pre post H1 Hf h
 
+/-- an instance that holds the lock keeps holding it until its own release -/
+theorem held_preserved {k : LockKind} {mode : ι → LockMode} {r : ι} :
+    ∀ (mid : List (Ev ι)) (H H' : List ι), r ∈ H → Ev.rel r ∉ mid →
+      runLock k mode H mid = some H' → r ∈ H'
+  | [], H, H', hr, _, h => by simp [runLock] at h; subst h; exact hr
+  | e :: rest, H, H', hr, hno, h => by
+    simp only [runLock] at h
+    cases hs : stepLock k mode H e with
+    | none => simp [hs] at h
+    | some H1 =>
+      simp only [hs] at h
+      have hno' : Ev.rel r ∉ rest := fun hm => hno (List.mem_cons_of_mem _ hm)
+      refine held_preserved rest H1 H' ?_ hno' h
+      cases e with
+      | acq x =>
+        simp only [stepLock] at hs
+        split at hs
+        · cases hs; exact List.mem_cons_of_mem _ hr
+        · cases hs
+      | rel x =>
+        simp only [stepLock] at hs
+        split at hs
+        · cases hs
+          have hx : r ≠ x := by
+            intro e; subst e; exact hno (List.mem_cons_self ..)
+          exact (List.mem_erase_of_ne hx).mpr hr
+        · cases hs
+      | acc x w =>
+        simp only [stepLock] at hs
+        split at hs
+        · cases hs; exact hr
+        · cases hs
+
 end Lock
 
 /-! ### atomic counts -/
